@@ -1,0 +1,100 @@
+//go:build verif
+
+// Executable contracts (bounded stand-ins) for package operators. Compiled only with
+// -tags verif.
+package operators
+
+import (
+	"regexp"
+	"regexp/syntax"
+	"strings"
+
+	"github.com/rs/zerolog"
+
+	"github.com/coreruleset/crs-toolchain/v2/context"
+	"github.com/coreruleset/crs-toolchain/v2/regex/processors"
+	"github.com/coreruleset/crs-toolchain/v2/utils"
+)
+
+var flagGroupAnywhere = regexp.MustCompile(`\(\?[-misU]+[:)]`)
+
+// BoundedGenerate (C02, C19): one assembly line built from regex tokens, optionally under the
+// flags i and s. Whatever the assembler returns without an error must be: printable ASCII
+// (A); every quote escaped (B) - except in the recorded class where a quote follows an
+// escaped backslash; no two adjacent backslashes (C); every \s directly followed by \x0b (D);
+// flags only as one leading (?is)-style group with sorted letters from {i,s}, no unescaped
+// inline flag group after it (E); and it must parse as an RE2 expression (F). A runtime
+// panic in the pipeline fails the contract (C19).
+//@ directive[C02,C19] bounded BoundedGenerate quick=4 thorough=5 tokens="a" "\"" "\\\\" "\\\"" "." "^" "(?:b|c)" "\\x5c" "\\s" "\\(?i:a\\)" "\x01" "é"
+//@ directive[C02] bounded BoundedGenerateFlags quick=3 thorough=4 tokens="a" "." "^x" "(?i:b.)" "\\s" "$"
+
+func BoundedGenerate(in string) string { return boundedGenerate("", in) }
+
+func BoundedGenerateFlags(in string) string {
+	if m := boundedGenerate("##!+ si\n", in); m != "" {
+		return m
+	}
+	return boundedGenerate("##!+ i\n", in)
+}
+
+func boundedGenerate(header, in string) string {
+	zerolog.SetGlobalLevel(zerolog.Disabled)
+	if in == "" {
+		return ""
+	}
+	ctx := processors.NewContext(context.New("/nonexistent-root", "toolchain.yaml"))
+	out, err := NewAssembler(ctx).Run(header + in + "\n")
+	if err != nil {
+		return ""
+	}
+	for i := 0; i < len(out); i++ {
+		if out[i] < 32 || out[i] > 126 {
+			return "A: byte outside printable ASCII in output " + quote(out)
+		}
+	}
+	// recorded finding (KNOWN_FINDINGS, C02): a quote that follows a literal backslash
+	norm := strings.ReplaceAll(in, `\x5c`, `\\`)
+	knownQuoteClass := strings.Contains(norm, `\\"`) || strings.Contains(norm, `\\\"`)
+	for i := 0; i < len(out); i++ {
+		if out[i] == '"' && !utils.IsEscaped(out, i) && !knownQuoteClass {
+			return "B: unescaped double quote in output " + quote(out)
+		}
+		if out[i] == '\\' && i+1 < len(out) && out[i+1] == '\\' && !utils.IsEscaped(out, i) {
+			return "C: literal backslash not written as \\x5c in output " + quote(out)
+		}
+	}
+	for i := strings.Index(out, `\s`); i >= 0; {
+		if !utils.IsEscaped(out, i) && !strings.HasPrefix(out[i:], `\s\x0b`) {
+			return "D: \\s without \\x0b in output " + quote(out)
+		}
+		j := strings.Index(out[i+2:], `\s`)
+		if j < 0 {
+			break
+		}
+		i = i + 2 + j
+	}
+	body := out
+	if strings.HasPrefix(header, "##!+") {
+		want := "(?i)"
+		if strings.Contains(header, "s") {
+			want = "(?is)"
+		}
+		if !strings.HasPrefix(out, want) {
+			return "E: flags prefix " + want + " missing or not sorted in output " + quote(out)
+		}
+		body = out[len(want):]
+	}
+	for _, loc := range flagGroupAnywhere.FindAllStringIndex(body, -1) {
+		if !utils.IsEscaped(body, loc[0]) {
+			return "E: inline flag group survives in output " + quote(out)
+		}
+	}
+	if !knownQuoteClass {
+		if _, err := syntax.Parse(out, syntax.Perl); err != nil {
+			return "F: output " + quote(out) + " does not parse: " + err.Error()
+		}
+	}
+	return ""
+}
+
+func quote(s string) string { return "\"" + s + "\"" }
